@@ -66,6 +66,16 @@ def iteration_order(E, d, key_of=None):
     return order + rest
 
 
+def strip_ptr(E, v):
+    while True:
+        if isinstance(v, VRef):
+            v = E.read_ref(v)
+        elif isinstance(v, VStruct) and v.name in ("Rc", "Box", "Arc") and len(v.fields) == 1:
+            v = v.fields[0]
+        else:
+            return v
+
+
 def last_seg_(t):
     from engine import last_seg
     return last_seg(t)
@@ -325,9 +335,11 @@ def dispatch(E, c, tc, args):
                 out.insert(k, x)
             d.items[:] = out
             return UNIT
-    ms = re.search(r"(?:^|::)(BTreeSet|HashSet|LinkedHashSet)::<.*>::(insert|contains|new|len|is_empty|iter|remove)(?:::<.*>)?$", c, re.S)
+    ms = re.search(r"(?:^|::)(BTreeSet|HashSet|LinkedHashSet)::<.*>::(insert|contains|new|with_capacity|len|is_empty|iter|remove)(?:::<.*>)?$", c, re.S)
     if ms:
         meth = ms.group(2)
+        if meth == "with_capacity":
+            meth, args = "new", []
         if meth == "new" and not args:
             fam = ms.group(1)
             return VSeq([], ("hset" if fam == "HashSet" else "bset" if fam == "BTreeSet" else "set") if getattr(E, "model_iteration_order", False) else "set")
@@ -340,14 +352,29 @@ def dispatch(E, c, tc, args):
                 return VBool(len(d.items) == 0)
             if meth == "iter":
                 return VSeq([VRef(r.cell, r.path + (("field", k),)) for k in iteration_order(E, d)], "iter")
-            # membership by equality of element identities (smart pointers are transparent): present or not is a solver-checked fork
+            # membership: an ordered set compares with the element type's Ord, a hash set with its PartialEq (assumed
+            # consistent with Hash).  Unfolded struct elements go through the crate's own impls — they may be hand-written
+            # and disagree with each other —, everything else by identity (smart pointers are transparent).
+            fam = ms.group(1)
+            def same(y, xv):
+                ya, xa = strip_ptr(E, y), strip_ptr(E, xv)
+                if isinstance(ya, VStruct) and isinstance(xa, VStruct) and ya.name == xa.name and not ya.name.startswith(("(", "#")):
+                    tr, meth_ = ("Ord", "cmp") if fam == "BTreeSet" else ("PartialEq", "eq")
+                    if E.P.resolve("<%s as %s>::%s" % (ya.name, tr, meth_)) is not None:
+                        r_ = E.call("<%s as %s>::%s" % (ya.name, tr, meth_), [VRef(Cell(ya, "set_a")), VRef(Cell(xa, "set_b"))])
+                        if isinstance(r_, VBool):
+                            return r_.t
+                        if isinstance(r_, VEnum) and r_.ty == "Ordering":
+                            return z3.BoolVal(r_.variant == "Equal")
+                return elem_ident(E, y) == elem_ident(E, xv)
+            present = z3.Or([same(it, args[1]) for it in d.items]) if d.items else z3.BoolVal(False)
             x = elem_ident(E, args[1])
-            present = z3.Or([elem_ident(E, it) == x for it in d.items]) if d.items else z3.BoolVal(False)
             if meth == "contains":
                 return VBool(present)
             if meth == "remove":
                 for k, it in enumerate(d.items):
-                    if E.choose([elem_ident(E, it) == x, elem_ident(E, it) != x], "set remove") == 0:
+                    eq_ = same(it, args[1])
+                    if E.choose([eq_, z3.Not(eq_)], "set remove") == 0:
                         d.items.pop(k)
                         return VBool(True)
                 return VBool(False)
